@@ -28,6 +28,9 @@ struct VWO
 int g_error; /* ghost: error()/throw happened */
 int g_i;     /* ghost index: stands for "every index" (chosen nondeterministically by the harness) */
 int g_j;     /* second ghost index */
+const void* g_p_; /* (see g_p) */
+#define g_p ((const T*)g_p_)
+long g_cap0, g_off0; /* ghosts: capacity and offset of the pre-state, set by the harness and tied by requires */
 
 #define K_THROW(val)                                                                                                  \
   do                                                                                                                  \
@@ -37,7 +40,9 @@ int g_j;     /* second ghost index */
     }                                                                                                                 \
   while (0)
 
+#ifndef VWO_MAXLEN
 #define VWO_MAXLEN 65536
+#endif
 #define VWO_MAXIDX 1000000
 
 /* capacity in elements */
@@ -75,18 +80,24 @@ int g_j;     /* second ghost index */
 
 /* ---- models of the std:: algorithms the kernels call (TRUSTED to describe libstdc++; each is itself verified
         against the contract below, so callers only see the contract) ---- */
+/* ghost g_p: a pointer to "any" source element (chosen by the harness); the copy contract speaks about that element,
+   so callers need no knowledge of the offsets used inside the caller */
+#define PTR_IN(p, first, last)                                                                                        \
+  (__CPROVER_same_object(p, first) && VWO_POFF(p) >= VWO_POFF(first) && VWO_POFF(p) < VWO_POFF(last))
 T* K_std_copy(const T* first, const T* last, T* out)
-__CPROVER_requires(first == last || (__CPROVER_same_object(first, last) && last - first >= 0 && last - first <= VWO_MAXLEN
-                   && __CPROVER_r_ok(first, (last - first) * sizeof(T)) && __CPROVER_w_ok(out, (last - first) * sizeof(T))
+__CPROVER_requires(first == last || (__CPROVER_same_object(first, last) && VWO_POFF(last) >= VWO_POFF(first)
+                   && (VWO_POFF(last) - VWO_POFF(first)) / (long)sizeof(T) <= VWO_MAXLEN
+                   && __CPROVER_r_ok(first, VWO_POFF(last) - VWO_POFF(first)) && __CPROVER_w_ok(out, VWO_POFF(last) - VWO_POFF(first))
                    && !__CPROVER_same_object(first, out)))
-__CPROVER_assigns(first != last : __CPROVER_object_upto(out, (last - first) * sizeof(T)))
-__CPROVER_ensures((first != last && g_j >= 0 && g_j < last - first) ==> out[g_j] == first[g_j])
-__CPROVER_ensures(first == last ? __CPROVER_return_value == out : __CPROVER_return_value == out + (last - first))
+__CPROVER_assigns(first != last : __CPROVER_object_upto(out, VWO_POFF(last) - VWO_POFF(first)))
+__CPROVER_ensures((first != last && PTR_IN(g_p, first, last)) ==> out[(VWO_POFF(g_p) - VWO_POFF(first)) / (long)sizeof(T)] == *g_p)
+__CPROVER_ensures(first == last ? __CPROVER_return_value == out : __CPROVER_return_value == out + (VWO_POFF(last) - VWO_POFF(first)) / (long)sizeof(T))
 {
-  long n = first == last ? 0 : last - first;
+  long n = first == last ? 0 : (VWO_POFF(last) - VWO_POFF(first)) / (long)sizeof(T);
   for (long k = 0; k < n; ++k)
     __CPROVER_assigns(k, __CPROVER_object_upto(out, n * sizeof(T)))
-    __CPROVER_loop_invariant(0 <= k && k <= n && ((0 <= g_j && g_j < k) ==> out[g_j] == first[g_j]))
+    __CPROVER_loop_invariant(0 <= k && k <= n)
+    __CPROVER_loop_invariant((PTR_IN(g_p, first, last) && (VWO_POFF(g_p) - VWO_POFF(first)) / (long)sizeof(T) < k) ==> out[(VWO_POFF(g_p) - VWO_POFF(first)) / (long)sizeof(T)] == *g_p)
     __CPROVER_decreases(n - k)
     out[k] = first[k];
   return out + n;
@@ -243,5 +254,99 @@ static inline void K_sptr_reset(T** p)
    (element values are the caller's business), see props/c11.py */
 #define CONTRACT_K_vwo_div_assign ARITH_CONTRACT(VWO_ELEM(v, g_i) == 0 ? VWO_ELEM(self, g_i) : __CPROVER_old(VWO_ELEM(self, g_i)) / VWO_ELEM(v, g_i))
 #define LC_K_vwo_div_assign_0 ARITH_LOOP(VWO_ELEM(v, g_i) == 0 ? VWO_ELEM(self, g_i) : __CPROVER_loop_entry(VWO_ELEM(self, g_i)) / VWO_ELEM(v, g_i))
+
+
+/* ---------------- allocating operations ---------------- */
+#define MAXL(a, b) ((long)(a) < (long)(b) ? (long)(b) : (long)(a))
+#define MINL(a, b) ((long)(b) < (long)(a) ? (long)(b) : (long)(a))
+#define CAPMIN(v) (VWO_MIN(v) - VWO_OFF(v))
+#define CAPMAX(v) (CAPMIN(v) + VWO_CAP(v) - 1)
+#define IDX_OK(x) ((x) > -VWO_MAXIDX && (x) < VWO_MAXIDX)
+#define GHOSTS_TIED(v)                                                                                                \
+  ((v)->begin_allocated_memory == NULL ? (g_cap0 == 0 && g_off0 == 0) : (g_cap0 == VWO_CAP(v) && g_off0 == VWO_OFF(v)))
+#define ELEM_GHOST(v) ((v)->length == 0 || (VWO_IN_RANGE(v, g_i) && g_p == &VWO_ELEM(v, g_i)))
+#define VWO_FIELDS(v) (v)->num, (v)->length, (v)->start, (v)->begin_allocated_memory, (v)->end_allocated_memory, (v)->allocated_memory_sptr
+
+/* reserve(lo,hi): capacity grows to cover [lo,hi] as well as the old capacity range; index range and every element unchanged */
+#define CONTRACT_K_vwo_reserve                                                                                       \
+  __CPROVER_requires(VWO_VALID(self) && !self->pointer_access && IDX_OK(new_capacity_min_index) && IDX_OK(new_capacity_max_index)) \
+  __CPROVER_requires(GHOSTS_TIED(self) && ELEM_GHOST(self))                                                            \
+  __CPROVER_requires(self->length == 0 ? (long)new_capacity_max_index - new_capacity_min_index + 1 <= VWO_MAXLEN       \
+                     : MAXL(CAPMAX(self), new_capacity_max_index) - MINL(CAPMIN(self), new_capacity_min_index) + 1 <= VWO_MAXLEN) \
+  __CPROVER_assigns(self->num, self->begin_allocated_memory, self->end_allocated_memory, self->allocated_memory_sptr)  \
+  __CPROVER_frees(self->allocated_memory_sptr)                                                                         \
+  __CPROVER_ensures(VWO_VALID(self) && self->length == __CPROVER_old(self->length) && self->start == __CPROVER_old(self->start)) \
+  __CPROVER_ensures(self->length > 0 ==> VWO_ELEM(self, g_i) == __CPROVER_old(VWO_ELEM(self, g_i)))                    \
+  __CPROVER_ensures((new_capacity_min_index <= new_capacity_max_index && self->length == 0)                            \
+                    ==> VWO_CAP(self) >= (long)new_capacity_max_index - new_capacity_min_index + 1)                    \
+  __CPROVER_ensures((self->length > 0)                                                                                 \
+                    ==> (CAPMIN(self) <= new_capacity_min_index && CAPMAX(self) >= new_capacity_max_index              \
+                         && CAPMIN(self) <= VWO_MIN(self) - g_off0 && CAPMAX(self) >= VWO_MIN(self) - g_off0 + g_cap0 - 1)) \
+  __CPROVER_ensures(VWO_CAP(self) >= g_cap0)
+
+/* resize(lo,hi): new index range exactly [lo,hi] (empty if lo>hi); surviving elements keep their values */
+#define RESIZE_CONTRACT                                                                                               \
+  __CPROVER_requires(VWO_VALID(self) && !self->pointer_access && IDX_OK(min_index) && IDX_OK(max_index))               \
+  __CPROVER_requires(GHOSTS_TIED(self) && ELEM_GHOST(self))                                                            \
+  __CPROVER_requires(min_index > max_index                                                                             \
+                     || (self->length == 0 ? (long)max_index - min_index + 1 <= VWO_MAXLEN                             \
+                         : MAXL(CAPMAX(self), max_index) - MINL(CAPMIN(self), min_index) + 1 <= VWO_MAXLEN)) \
+  __CPROVER_assigns(VWO_FIELDS(self))                                                                                  \
+  __CPROVER_frees(self->allocated_memory_sptr)                                                                         \
+  __CPROVER_ensures(VWO_VALID(self))                                                                                   \
+  __CPROVER_ensures(min_index > max_index ? self->length == 0                                                          \
+                                          : (self->start == min_index && (long)self->length == (long)max_index - min_index + 1)) \
+  __CPROVER_ensures((__CPROVER_old(self->length) > 0 && min_index <= g_i && g_i <= max_index)                          \
+                    ==> VWO_ELEM(self, g_i) == __CPROVER_old(VWO_ELEM(self, g_i)))
+#define CONTRACT_K_vwo_resize RESIZE_CONTRACT
+#define CONTRACT_K_vwo_grow RESIZE_CONTRACT
+
+/* Array<1,T>::resize: as above, and "elements newly exposed by growing a numeric array are zero" (ghost g_j: any new index) */
+#define CONTRACT_K_arr1_resize                                                                                       \
+  RESIZE_CONTRACT                                                                                                      \
+  __CPROVER_requires(g_cap0 >= 0)                                                                                      \
+  __CPROVER_ensures((min_index <= g_j && g_j <= max_index                                                              \
+                     && !(__CPROVER_old(self->length) > 0 && (long)g_j >= (long)__CPROVER_old(self->start)             \
+                          && (long)g_j <= (long)__CPROVER_old(self->start) + (long)__CPROVER_old(self->length) - 1))   \
+                    ==> VWO_ELEM(self, g_j) == 0)
+#define ZERO_INV(lo)                                                                                                  \
+  __CPROVER_assigns(i, FRAME_ELEMS(self))                                                                              \
+  __CPROVER_loop_invariant((long)i >= VWO_MIN(self) && (long)i <= VWO_MAX(self) + 1)
+/* loop 0: old vector empty: everything zeroed */
+#define LC_K_arr1_resize_0                                                                                           \
+  ZERO_INV(0)                                                                                                          \
+  __CPROVER_loop_invariant((VWO_IN_RANGE(self, g_j) && g_j < i) ==> VWO_ELEM(self, g_j) == 0)                          \
+  __CPROVER_decreases(VWO_MAX(self) + 1 - (long)i)
+/* loop 1: new elements to the left of the old range */
+#define LC_K_arr1_resize_1                                                                                           \
+  ZERO_INV(1)                                                                                                          \
+  __CPROVER_loop_invariant((long)i <= MAXL((long)oldstart, VWO_MIN(self)))                                       \
+  __CPROVER_loop_invariant((VWO_IN_RANGE(self, g_j) && g_j < i && g_j < oldstart) ==> VWO_ELEM(self, g_j) == 0)        \
+  __CPROVER_loop_invariant((VWO_IN_RANGE(self, g_i) && g_i >= oldstart) ==> VWO_ELEM(self, g_i) == __CPROVER_loop_entry(VWO_ELEM(self, g_i))) \
+  __CPROVER_decreases(VWO_MAX(self) + 1 - (long)i)
+/* loop 2: new elements to the right of the old range */
+#define LC_K_arr1_resize_2                                                                                           \
+  ZERO_INV(2)                                                                                                          \
+  __CPROVER_loop_invariant((long)i >= (long)oldstart + (long)oldlength)                                                \
+  __CPROVER_loop_invariant((VWO_IN_RANGE(self, g_j) && g_j < i && (long)g_j >= (long)oldstart + (long)oldlength) ==> VWO_ELEM(self, g_j) == 0) \
+  __CPROVER_loop_invariant((VWO_IN_RANGE(self, g_j) && g_j < oldstart) ==> VWO_ELEM(self, g_j) == __CPROVER_loop_entry(VWO_ELEM(self, g_j))) \
+  __CPROVER_loop_invariant((VWO_IN_RANGE(self, g_i) && (long)g_i < (long)oldstart + (long)oldlength) ==> VWO_ELEM(self, g_i) == __CPROVER_loop_entry(VWO_ELEM(self, g_i))) \
+  __CPROVER_decreases(VWO_MAX(self) + 1 - (long)i)
+
+/* operator=: *this becomes an equal copy of il: same index range, same elements; il untouched */
+#define CONTRACT_K_vwo_assign                                                                                        \
+  __CPROVER_requires(VWO_VALID(self) && VWO_VALID(il) && !self->pointer_access)                                        \
+  __CPROVER_requires(self == il || self->begin_allocated_memory == NULL || il->begin_allocated_memory == NULL         \
+                     || !__CPROVER_same_object(self->begin_allocated_memory, il->begin_allocated_memory))              \
+  __CPROVER_requires(il->length == 0 || (VWO_IN_RANGE(il, g_i) && g_p == &VWO_ELEM(il, g_i)))                          \
+  __CPROVER_assigns(VWO_FIELDS(self); self->length > 0 || 1 : __CPROVER_object_whole(self->begin_allocated_memory))    \
+  __CPROVER_frees(self->allocated_memory_sptr)                                                                         \
+  __CPROVER_ensures(VWO_VALID(self) && __CPROVER_return_value == self)                                                 \
+  __CPROVER_ensures(self->length == il->length && self->start == il->start)                                           \
+  __CPROVER_ensures(il->length > 0 ==> VWO_ELEM(self, g_i) == VWO_ELEM(il, g_i))
+
+#define CONTRACT_K_vwo_init0 __CPROVER_assigns(VWO_FIELDS(self)) __CPROVER_ensures(VWO_VALID(self) && self->length == 0 && self->begin_allocated_memory == NULL)
+#define CONTRACT_K_vwo__destruct_and_deallocate __CPROVER_requires(VWO_VALID(self)) __CPROVER_assigns(self->allocated_memory_sptr) __CPROVER_frees(self->allocated_memory_sptr) __CPROVER_ensures(self->allocated_memory_sptr == NULL)
+#define CONTRACT_K_vwo_recycle __CPROVER_requires(VWO_VALID(self)) __CPROVER_assigns(VWO_FIELDS(self)) __CPROVER_frees(self->allocated_memory_sptr) __CPROVER_ensures(VWO_VALID(self) && self->length == 0 && self->begin_allocated_memory == NULL)
 
 #endif
